@@ -496,14 +496,31 @@ def _r6(rep, src, label, full):
     # every live collection object must still have mutually inverse indexes afterwards (an insert that re-binds one of its own
     # dictionaries instead of updating it leaves the other object with one old and one new index)
     rev = src.func(M + ':DB.reverse')
-    for through_view, pkg, tags in ((False, 'pkg-one', {'role::b'}), (False, 'pkg-new', {'role::b', 'x::new'}), (False, 'pkg-three', set()),
-                                    (True, 'role::b', {'pkg-one'}), (True, 'x::new', {'pkg-two', 'pkg-three'})):
+    # (also on a collection whose packages have no tags yet -- its tag index is the EMPTY dictionary, which a view must share like any other)
+    TAGLESS = {'pkg-one': set(), 'pkg-two': set()}
+    for world, through_view, pkg, tags in ((None, False, 'pkg-one', {'role::b'}), (None, False, 'pkg-new', {'role::b', 'x::new'}), (None, False, 'pkg-three', set()),
+                                           (None, True, 'role::b', {'pkg-one'}), (None, True, 'x::new', {'pkg-two', 'pkg-three'}),
+                                           (TAGLESS, True, 'role::b', {'pkg-one'}), (TAGLESS, True, 'role::b', {'pkg-one', 'pkg-two'}), (TAGLESS, False, 'pkg-two', set()),
+                                           ({}, True, 'role::b', set())):
         if not all(p_ in GEN for p_ in ('pkg-one', 'pkg-two', 'pkg-three')):
             break
-        heap, it, me = _world(src)
-        what = 'insert(%s, %s) %s while a reverse() view of the collection is alive' % (pkg, sorted(tags), 'through the view' if through_view else 'into the collection')
+        heap, it, me = _world(src, db=world)
+        what = 'insert(%s, %s) %s while a reverse() view of the collection is alive%s' % (
+            pkg, sorted(tags), 'through the view' if through_view else 'into the collection',
+            '' if world is None else ' (a collection of packages without tags)' if world else ' (the empty collection)')
         try:
             view = it.call(H.Closure(rev.node, {}, me, rev.cls), [])
+            vo_, mo_ = heap.objs[view.name], heap.objs[me.name]
+            if not all(isinstance(o_.get(k_), H.Ref) for o_ in (vo_, mo_) for k_ in ('db', 'rdb')):
+                raise AnalysisError('%s: the view has no db / rdb dictionaries' % rev.site)
+            halves = [k_ for k_, j_ in (('db', 'rdb'), ('rdb', 'db')) if vo_[k_].name != mo_[j_].name]
+            if len(halves) == 1:
+                # one index shared, one not: whatever is inserted next reaches only half of the other object
+                rep.fail('C20.R3', rev.site, 'reverse() shares both index dictionaries or none%s' % ('' if world is None else ' (packages without tags)' if world else ' (empty collection)'),
+                         'the view\'s %s is a dictionary of its own while its other index is the collection\'s: the next insert on either object updates one index of the '
+                         'other object and not its inverse (an EMPTY index of the collection is replaced by a new dictionary -- `x or {}` treats the empty dictionary as absent)'
+                         % ('package index' if halves[0] == 'db' else 'tag index'), where=rev.where)
+                continue
             it.call(H.Closure(ins.node, {}, view if through_view else me, ins.cls), [pkg, set(tags)])
         except H.Raised as x:
             rep.fail('C20.R3', ins.site, what, 'raises %s (line %d)' % (x.exc, x.lineno), where=ins.where)
